@@ -733,10 +733,7 @@ type srvOutcome struct {
 }
 
 func serveMOSN(mng types.TLSContextManager, want int) (addr string, results chan srvOutcome, closer func()) {
-	ln, err := net.Listen("tcp", "127.0.0.1:0")
-	if err != nil {
-		panic(err)
-	}
+	ln := listenLocal()
 	results = make(chan srvOutcome, 64)
 	go func() {
 		for {
@@ -821,7 +818,7 @@ func runHandshakes(run *Run, right, other *authority, ls []*listenerUnderTest, v
 			for m := r.Intn(3); m > 0; m-- {
 				protos = append(protos, r.PickS(protoAlphabet))
 			}
-			conn, err := net.DialTimeout("tcp", addr, hsTimeout)
+			conn, err := dialLocal(addr, hsTimeout)
 			if err != nil {
 				continue
 			}
@@ -908,7 +905,7 @@ func runHandshakes(run *Run, right, other *authority, ls []*listenerUnderTest, v
 		addr, results, closer := serveMOSN(l.mng, 4)
 		for rel := 0; rel < 5; rel++ {
 			for rep := 0; rep < run.N(1, 3); rep++ {
-				conn, err := net.DialTimeout("tcp", addr, hsTimeout)
+				conn, err := dialLocal(addr, hsTimeout)
 				if err != nil {
 					panic(err)
 				}
@@ -968,10 +965,7 @@ func runHandshakes(run *Run, right, other *authority, ls []*listenerUnderTest, v
 	}
 	servers := []upSrv{{1, mkSrv(right, leafOpt{selfSigned: true})}, {2, mkSrv(other, leafOpt{})}, {3, mkSrv(right, leafOpt{})}, {4, mkSrv(right, leafOpt{expired: true})}}
 	for _, us := range servers {
-		ln, err := net.Listen("tcp", "127.0.0.1:0")
-		if err != nil {
-			panic(err)
-		}
+		ln := listenLocal()
 		srvRes := make(chan bool, 16)
 		go func(cert gotls.Certificate) {
 			for {
@@ -999,7 +993,7 @@ func runHandshakes(run *Run, right, other *authority, ls []*listenerUnderTest, v
 				if err != nil {
 					panic(err)
 				}
-				raw, err := net.DialTimeout("tcp", ln.Addr().String(), hsTimeout)
+				raw, err := dialLocal(ln.Addr().String(), hsTimeout)
 				if err != nil {
 					panic(err)
 				}
@@ -1053,7 +1047,7 @@ func runHandshakes(run *Run, right, other *authority, ls []*listenerUnderTest, v
 			addr, results, closer := serveMOSN(l.mng, payloadLen)
 			for _, fb := range firstBytes {
 				payload := append([]byte{fb}, r.Bytes(payloadLen-1)...)
-				conn, err := net.DialTimeout("tcp", addr, hsTimeout)
+				conn, err := dialLocal(addr, hsTimeout)
 				if err != nil {
 					panic(err)
 				}
@@ -1080,7 +1074,7 @@ func runHandshakes(run *Run, right, other *authority, ls []*listenerUnderTest, v
 			}
 			// a real ClientHello
 			if anyReady {
-				conn, err := net.DialTimeout("tcp", addr, hsTimeout)
+				conn, err := dialLocal(addr, hsTimeout)
 				if err != nil {
 					panic(err)
 				}
